@@ -171,7 +171,8 @@ def run(ctx):
         'reference table transcribed from PS3.7 Annex C and PS3.4 B.2.3 / C.4.1-C.4.3',
         'codes outside every table may be Failure, or the class PS3.7 assigns by pattern '
         '(Warning for 0001/0107/0116/Bxxx, Cancel FE00, Pending FF00/FF01)',
-        'a code without a service-specific entry for the command must get the same class as without a command']
+        'a code without a service-specific entry for the command must get the same class as without a command',
+        'classification is a function of (code, command) only: also checked in code-major order and right after a lookup of the same code for another command']
     cmds = [None] + message_classes()
     for cmd in cmds:
         cf = cmd.command_field if cmd is not None else None
@@ -198,7 +199,39 @@ def run(ctx):
                       (d.CGetRSPMessage, 0x1234)):
         st = statuses.Status(code, cmd)
         ctx.samples.append({'command': cmd.__name__, 'code': code, 'status_type': st.status_type})
+    history(ctx, statuses, cmds)
     metamorphic(ctx)
+
+
+def history(ctx, statuses, cmds):
+    """Classification must not depend on what was classified before: code-major sweeps, and every code that
+    has a service-specific class looked up right after the same code was looked up without / with another command."""
+    n = 0
+    for code in list(range(0, 0x10000, 257)) + sorted(GENERAL_CODES) + [0xA700, 0xA701, 0xA801, 0xAA02, 0xB000, 0xB006, 0xB007,
+                                                                        0xC000, 0xCFFF, 0xFE00, 0xFF00, 0xFF01]:
+        for cmd in cmds:                       # code-major order
+            n += 1
+            try:
+                check_one(statuses, cmd, code)
+            except Violation as v:
+                v.case['order'] = 'code-major'
+                ctx.fail(v.key + ':history', v.what + ' (code-major sweep)', v.case)
+    owners = [c for c in cmds if c is not None and c.command_field in (C_STORE_RSP, C_FIND_RSP, C_GET_RSP, C_MOVE_RSP)]
+    for cmd in owners:
+        for code in range(0x10000):
+            if specific_class(cmd.command_field, code) is None:
+                continue
+            for before in (None, cmds[1], cmds[-1]) + tuple(o for o in owners if o is not cmd):
+                n += 1
+                statuses.Status(code, before)
+                try:
+                    check_one(statuses, cmd, code)
+                except Violation as v:
+                    v.case['before'] = getattr(before, '__name__', None)
+                    ctx.fail('C18:history-dependent', v.what + ' when constructed right after Status(0x%04X, %s)'
+                             % (code, getattr(before, '__name__', None)), v.case)
+    ctx.evaluations += n
+    ctx.label('history-order', n)
 
 
 def replay(case):
@@ -213,4 +246,7 @@ def replay(case):
     cmd = None
     if case['command_field'] is not None:
         cmd = dimsemessages.MESSAGE_TYPE[case['command_field']]
+    if 'before' in case:
+        before = getattr(dimsemessages, case['before']) if case['before'] else None
+        statuses.Status(case['code'], before)
     check_one(statuses, cmd, case['code'])
